@@ -47,12 +47,15 @@ type Monitor struct {
 	Transition map[[2]uint8]int // (state class, event kind) pairs visited
 	NoRecord   bool             // do not keep Events (only automaton + counts)
 	NEvents    int
+	// Next, if set, receives every event after the automaton has seen it; its
+	// error is returned to the producer (tee into an encoder or unfolder).
+	Next structform.ExtVisitor
 }
 
 func NewMonitor() *Monitor { return &Monitor{} }
 
 func (m *Monitor) Reset() {
-	*m = Monitor{Budget: m.Budget, OnEvent: m.OnEvent, Transition: m.Transition, NoRecord: m.NoRecord}
+	*m = Monitor{Budget: m.Budget, OnEvent: m.OnEvent, Transition: m.Transition, NoRecord: m.NoRecord, Next: m.Next}
 }
 
 // Depth is the current nesting depth as seen by the automaton.
@@ -149,7 +152,7 @@ func (m *Monitor) step(e val.Event) error {
 	case k == val.EObjEnd || k == val.EArrEnd:
 		if len(m.stack) == 0 {
 			m.flag("%s without a matching start", k)
-			return nil
+			return m.forward(e)
 		}
 		top := m.stack[len(m.stack)-1]
 		if top.obj != (k == val.EObjEnd) {
@@ -163,18 +166,18 @@ func (m *Monitor) step(e val.Event) error {
 		}
 		m.stack = m.stack[:len(m.stack)-1]
 		m.valueDone()
-		return nil
+		return m.forward(e)
 	case k.IsKey():
 		if len(m.stack) == 0 || !m.stack[len(m.stack)-1].obj {
 			m.flag("key %q outside of an object", e.S)
-			return nil
+			return m.forward(e)
 		}
 		top := &m.stack[len(m.stack)-1]
 		if top.pending {
 			m.flag("two keys in a row (%q)", e.S)
 		}
 		top.pending = true
-		return nil
+		return m.forward(e)
 	}
 	// a value begins
 	if len(m.stack) > 0 {
@@ -207,7 +210,14 @@ func (m *Monitor) step(e val.Event) error {
 	default:
 		m.valueDone()
 	}
-	return nil
+	return m.forward(e)
+}
+
+func (m *Monitor) forward(e val.Event) error {
+	if m.Next == nil {
+		return nil
+	}
+	return Call(m.Next, e, false)
 }
 
 func (m *Monitor) valueDone() {
